@@ -23,8 +23,10 @@
 //	            + - * & | ^ and / % by a constant, conversions string([]byte) []byte(string) int(byte) byte(int),
 //	            append(buf, bytes...) / append(buf, s...), calls of functions translated alongside, and
 //	            strings.Replace(s, "lit", new, -1) strings.ReplaceAll strings.HasPrefix HasSuffix TrimPrefix
-//	            TrimSuffix Index IndexByte Contains, path.Clean, filepath.Clean, filepath.Join(a, b),
+//	            TrimSuffix Index IndexByte Contains, path.Clean, filepath.Clean, filepath.Join(a, b), path.Join(a, b),
 //	            filepath.FromSlash / ToSlash (identity: POSIX).
+//	a local `var sb strings.Builder` used only through sb.WriteByte / WriteString / Write / Reset (statements) and
+//	            sb.String() / sb.Len(): a byte accumulator (list N), also as loop-carried state.
 //
 // Only go/ast, go/parser, go/token for the analysis (no type checker): types are inferred locally
 // from declarations; an expression whose type cannot be determined is rejected.
